@@ -85,6 +85,12 @@ type InitItem struct {
 const MaxTime = 10 * time.Minute
 
 func NewWorld(slot int, unique bool, keys []int, val func(k int) int) (*World, error) {
+	return NewWorldPlaced(slot, unique, keys, val, false)
+}
+
+// NewWorldPlaced: segment = the store keeps values in a separate segment (IsValueDataInNodeSegment=false) instead of
+// inside the B-tree nodes.
+func NewWorldPlaced(slot int, unique bool, keys []int, val func(k int) int, segment bool) (*World, error) {
 	dir, err := os.MkdirTemp(hx.WorkRoot(), "occx-")
 	if err != nil {
 		return nil, err
@@ -99,7 +105,11 @@ func NewWorld(slot int, unique bool, keys []int, val func(k int) int) (*World, e
 	if err := t.T.Begin(w.Ctx); err != nil {
 		return nil, err
 	}
-	b, err := txk.NewBtree[int, string](w.Ctx, t, w.Env.StoreOpts(w.Store, slot, unique))
+	so := w.Env.StoreOpts(w.Store, slot, unique)
+	if segment {
+		so.IsValueDataInNodeSegment = false
+	}
+	b, err := txk.NewBtree[int, string](w.Ctx, t, so)
 	if err != nil {
 		return nil, err
 	}
